@@ -32,7 +32,7 @@ ABSENT = sm.ABSENT
 def universes(tier):
     out = []
     for kind in (("timed",) if tier == "quick" else ("timed", "state")):
-        specs = [StateSpec("first", kind, first=True), StateSpec("second", kind), StateSpec("third", "timed")]
+        specs = [StateSpec("first", kind, first=True), StateSpec("second", kind), StateSpec("third", "timed", duration=0)]
         if tier == "thorough":
             specs.append(StateSpec("fourth", "state"))
         out.append((f"StatefulAutonomous[{kind}]", specs))
@@ -71,7 +71,8 @@ def build(program, specs):
         if s.kind == "timed":
             nxt = LazyV(f"next_state[{s.name}]", [None] + targets)
             nxt.persist = False
-            w = it.call(mod.ns["timed_state"], [f], {"duration": Sym(f"dur_{s.name}", "num", tag="duration", uid=0), "next_state": nxt, "first": s.first})
+            dur = s.duration if s.duration is not None else Sym(f"dur_{s.name}", "num", tag="duration", uid=0)
+            w = it.call(mod.ns["timed_state"], [f], {"duration": dur, "next_state": nxt, "first": s.first})
         else:
             w = it.call(mod.ns["state"], [f], {"first": s.first}) if s.first else it.call(mod.ns["state"], [f], {})
         ns[s.name] = w
@@ -305,7 +306,7 @@ def check(ctx):
         # C15.K keys registered by the constructor
         for key, default in r["registered"]:
             st = key.strip("'").split("\\\\")[-1]
-            good = key.startswith("'mode\\\\") and st.endswith("_duration") and default == f"$dur_{st[:-len('_duration')]}"
+            good = key.startswith("'mode\\\\") and st.endswith("_duration") and default in (f"$dur_{st[:-len('_duration')]}", "0")
             ctx.require(good, "C15.K", f"registered {key} default {default}", f"the constructor registers dashboard key {key} with default {default}; expected 'MODE_NAME\\\\<state>_duration' with the decorator's duration", site=("robotpy_ext/autonomous/stateful_autonomous.py", 0, "StatefulAutonomous.__build_states"), key=f"C15.K|{key}")
     ctx.floor("universes", len(res), 2)
     ctx.floor("typestates", sum(r["states"] for r in res), 50)
